@@ -74,6 +74,12 @@ check("C07",
       "TLA+ spec (QIndex Kronecker layout, all orders x groupings) model-checked with TLC; replay of every configuration into tensor_product with labelled factors",
       "DESIGN.md §4 C07")
 
+check("C01",
+      "TLC (MC_C01 over QSpectral) judges abstract objects (type x shape x spectrum class x equality deviation x most negative eigenvalue) at tolerance 10^-k in exact decimal arithmetic with a guard band and checks: physical = eq and ineq; exactly physical objects are physical at every tolerance; gross violations never are; construction succeeds iff physical; and, as an action property over the Loosen step, that a looser tolerance never turns a forced TRUE verdict FALSE. Binding: every emitted case is concretised in seeded frames (identity / real / generic complex) as a State, a Povm with a common eigenframe, and Gates / MProcesses that are Weyl-diagonal maps in a local unitary frame (Choi spectrum = d x weights); the three verdict methods are called with explicit atol and through Settings.set_atol (restored), constructors with is_physicality_required=True must raise exactly on non-physical objects, origin objects must be physical and zero objects zero.",
+      "Trusted: QSpectral guard-band reading of 'the absolute tolerance is the only slack'; covariance of spectra under the sampled frames; harness/spectral.py construction of maps from weights.",
+      "TLA+ spec (QSpectral decimal verdicts, Loosen action property) model-checked with TLC; replay of TLC-emitted cases concretised in spectral coordinates",
+      "DESIGN.md §4 C01")
+
 ALL = ["C%02d" % i for i in range(1, 21)]
 
 def main():
